@@ -17,6 +17,47 @@ The analysis is flow-insensitive inside a function (a may-analysis with joins), 
 object attributes (one abstract location per attribute name), and uses package-wide summaries
 (returned aliases, mutated parameters, returned set types, parameter set types inferred from
 call sites) computed to a fixpoint.  Pure stdlib; importing this module has no side effects.
+
+Alias levels.  Every value carries, per source (module-level binding, cached function result,
+mutable default, closure cell, class attribute, parameter), one of: SELF (is the object), SUB (a
+sub-object of it: subscript / attribute / .get / .items() / loop variable), SHALLOW (a fresh
+container whose elements are shared: X.copy(), dict(X), list(X), {**X}, sorted(X)...).  A write
+through SELF or SUB is a write to the source; a write to the top level of a SHALLOW value is not,
+a write one level below it is (`X.copy()[k][j] = v`).  copy.deepcopy breaks the alias.  Module
+tables whose elements are all immutable literals (str/int/tuple...) do not taint their elements.
+
+Known blind spots (documented assumptions of the C14 evidence):
+  * A-REFL    reflective writes: setattr/getattr with computed names, `self[key] = v` routed to
+              setattr by SurveyElement.__setitem__, **kwargs forwarding, exec/eval, __dict__.
+  * A-HEAP    heap aliasing is field-based by attribute *name* only for module/cached/default
+              sources; a parameter stored into an object field and mutated later through that
+              field by another function is not connected back to the caller's argument.  A shallow
+              copy stored as an element of another container (two levels from shared state) is
+              not tracked.
+  * A-CALL    calls are resolved by name (module functions, imports, constructors, self.m inside
+              the class family, locals bound to a constructor call; otherwise every package method
+              of that name).  Callables passed as values, functools.partial, getattr-dispatch and
+              third-party callees are opaque: they are assumed neither to mutate their arguments
+              nor (except the listed process-global setters) to write global state.
+  * A-SETTYPE a value is known to be a set only through literals/constructors/set operators,
+              annotations, attribute assignments seen in the package, return values of package
+              functions and arguments at package call sites.  Sets arriving from third-party
+              calls, from untyped containers built elsewhere, or via *args/**kwargs are unseen.
+              dict views combined with - & | ^ are treated as sets; dict/list iteration is
+              assumed insertion ordered.
+  * A-FLOW    flow-insensitive: `x = S; x = sorted(x); for i in x` is flagged (annotate);
+              conversely no path conditions are used, so nothing is missed for that reason.
+  * A-LRU     E2 checks the body and callees resolved statically; reads through arguments
+              (e.g. the survey object used as an lru_cache key) are by design not reads of
+              module state.  Staleness of identity-keyed entries is argued separately.
+  * A-ORDER   only set/frozenset and unsorted directory listings are treated as unordered;
+              id()/hash() are reported (E3x) wherever their value is used, but ordering that
+              depends on them indirectly (sorting objects without a key, dict keyed by objects
+              with id-based hashes iterated after deletion) is not analysed.
+  * A-E5      the warnings list is recognised by name (`warnings`, `_warnings`, `.warnings`,
+              and direct local aliases); a list renamed on the way is not followed.
+  * module top-level (import-time) code and code under `if __name__ == "__main__"` is listed as
+    justified, not analysed; class bodies nested in functions are not analysed.
 """
 
 from __future__ import annotations
@@ -320,6 +361,7 @@ class FuncInfo:
         self.is_classmethod = False
         self.vararg = None
         self.kwarg = None
+        self.local_imports = {}  # name -> Binding for imports executed inside the body
 
     @property
     def fq(self):
@@ -647,6 +689,7 @@ class Package:
                 handle(st)
         fi.owned = owned
         stores = set()
+        imports = {}
         for x in owned:
             if isinstance(x, ast.Name) and isinstance(x.ctx, ast.Store | ast.Del):
                 stores.add(x.id)
@@ -656,10 +699,23 @@ class Package:
                 fi.nonlocals_decl.update(x.names)
             elif isinstance(x, ast.Import):
                 for al in x.names:
-                    stores.add(al.asname or al.name.split(".")[0])
+                    nm = al.asname or al.name.split(".")[0]
+                    imports[nm] = Binding(
+                        "import_module", module=al.name if al.asname else al.name.split(".")[0], lineno=x.lineno
+                    )
             elif isinstance(x, ast.ImportFrom):
+                base = x.module or ""
+                if x.level:
+                    pkg_parts = fi.module.name.split(".")
+                    if not fi.module.is_pkg:
+                        pkg_parts = pkg_parts[:-1]
+                    if x.level > 1:
+                        pkg_parts = pkg_parts[: len(pkg_parts) - (x.level - 1)]
+                    base = ".".join(pkg_parts + ([x.module] if x.module else []))
                 for al in x.names:
-                    stores.add(al.asname or al.name)
+                    imports[al.asname or al.name] = Binding(
+                        "import_name", module=base, name=al.name, lineno=x.lineno
+                    )
             elif isinstance(x, ast.FunctionDef | ast.AsyncFunctionDef | ast.ClassDef):
                 stores.add(x.name)
             elif isinstance(x, ast.ExceptHandler) and x.name:
@@ -669,6 +725,11 @@ class Package:
             elif isinstance(x, ast.MatchMapping) and x.rest:
                 stores.add(x.rest)
         fi.locals |= stores - fi.globals_decl - fi.nonlocals_decl
+        for nm, b in imports.items():
+            if nm in fi.locals or nm in fi.globals_decl:
+                fi.locals.add(nm)  # also assigned otherwise: plain local
+            else:
+                fi.local_imports[nm] = b
 
     # ---- resolution ----------------------------------------------------------------
     def resolve_name(self, fn, name):
@@ -679,10 +740,14 @@ class Package:
                 return ("global", b if b is not None else Binding("assign"))
             if name in fn.locals:
                 return ("local", fn)
+            if name in fn.local_imports:
+                return ("global", fn.local_imports[name])
             p = fn.parent
             while p is not None:
                 if name in p.locals:
                     return ("closure", p)
+                if name in p.local_imports:
+                    return ("global", p.local_imports[name])
                 if name in p.globals_decl:
                     break
                 p = p.parent
@@ -708,6 +773,17 @@ class Package:
             if sub in self.modules:
                 return ("module", sub)
             return None
+        return self.follow_binding(module_name, name, b, depth)
+
+    def follow_name(self, fn, mod, name):
+        """Resolve a bare name used in function fn of module mod to a follow() result."""
+        kind, b = self.resolve_name(fn, name) if fn is not None else ("global", mod.bindings.get(name))
+        if kind != "global" or b is None:
+            return None
+        return self.follow_binding(mod.name, name, b)
+
+    def follow_binding(self, module_name, name, b, depth=0):
+        mod = self.modules.get(module_name)
         if b.kind == "assign":
             return ("state", module_name, name, b)
         if b.kind == "def":
@@ -744,12 +820,12 @@ class Package:
             cur = cur.value
         if not isinstance(cur, ast.Name):
             return None
-        kind, _ = self.resolve_name(fn, cur.id) if fn is not None else ("global", None)
-        if kind != "global":
+        kind, b = self.resolve_name(fn, cur.id) if fn is not None else ("global", mod.bindings.get(cur.id))
+        if kind != "global" or b is None:
             return None
-        if cur.id not in mod.bindings:
+        if b.kind == "assign" and b.value is None and cur.id not in mod.bindings:
             return None
-        ref = self.follow(mod.name, cur.id)
+        ref = self.follow_binding(mod.name, cur.id, b)
         chain.reverse()
         i = 0
         while ref is not None and i < len(chain):
@@ -820,6 +896,14 @@ class Package:
             return "mutable"
         if isinstance(value, ast.Constant | ast.JoinedStr | ast.Lambda | ast.Compare):
             return "immutable"
+        if isinstance(value, ast.Starred):
+            # *X inside a tuple display: contributes X's elements
+            v = value.value
+            if isinstance(v, ast.Name | ast.Attribute):
+                r = self.resolve_global_expr(None, mod, v)
+                if r and r[1] == 0 and r[0][0] == "state" and self.elements_immutable(f"{r[0][1]}:{r[0][2]}"):
+                    return "immutable"
+            return "unknown"
         if isinstance(value, ast.Tuple):
             ms = [self.mutability(mod, x, depth + 1) for x in value.elts]
             if all(m == "immutable" for m in ms):
@@ -1135,7 +1219,7 @@ class FA:
                     out.append((fi, None, 0))
                 return out
             if kind == "global":
-                ref = pkg.follow(self.mod.name, f.id)
+                ref = pkg.follow_name(self.fn, self.mod, f.id)
                 return self._ref_callees(ref)
             return out
         if isinstance(f, ast.Attribute):
@@ -1434,7 +1518,7 @@ class FA:
         return t
 
     def _is_ext(self, name_node):
-        ref = self.pkg.follow(self.mod.name, name_node.id)
+        ref = self.pkg.follow_name(self.fn, self.mod, name_node.id)
         return ref is not None and ref[0] == "ext"
 
     # ---- set-type evaluation ------------------------------------------------------
@@ -1905,7 +1989,7 @@ class FA:
                     if f.id in ("setattr", "delattr") and k == "builtin" and n.args:
                         self.mutate_expr(n.args[0], n, f"{f.id}() on {ast.unparse(n.args[0])}")
                     elif f.id in GLOBAL_SETTER_ATTRS and k == "global" and self.collect:
-                        ref = pkg.follow(self.mod.name, f.id)
+                        ref = pkg.follow_name(fn, self.mod, f.id)
                         if ref is not None and ref[0] == "ext":
                             self.events.append((("global", f"ext:{ref[1]}.{ref[2]}"), n, f"call of process-global setter {f.id}()"))
 
@@ -2116,6 +2200,8 @@ class FA:
             elif isinstance(f, ast.Name) and nm in ("id", "hash") and pkg.resolve_name(self.fn, nm)[0] == "builtin":
                 if not self.fn.is_lambda and self.fn.node.name in ("__hash__", "__eq__"):
                     continue
+                if isinstance(pkg.parent.get(n), ast.Expr):
+                    continue  # value discarded (hashability probe)
                 sites.append((n, f"{nm}() value used: depends on memory layout / hash seed"))
         return sites
 
@@ -2136,7 +2222,7 @@ class FA:
                 if k in ("local", "closure"):
                     occ.append(n)
                 elif k == "global":
-                    ref = pkg.follow(self.mod.name, n.id)
+                    ref = pkg.follow_name(fn, self.mod, n.id)
                     if ref is not None and ref[0] in ("module", "ext", "def", "class"):
                         continue
                     occ.append(n)
@@ -2328,7 +2414,7 @@ def _load_annotations():
     return out
 
 
-def _key_kind(pkg, fa, p):
+def _key_kind(pkg, fa, p, depth=0):
     fn = fa.fn
     ann = fn.param_ann.get(p)
     if ann is not None:
@@ -2348,6 +2434,17 @@ def _key_kind(pkg, fa, p):
             and n.attr in STR_METHODS
         ):
             return "str (inferred from use)"
+    if depth < 2:
+        for n in fn.owned:
+            if isinstance(n, ast.Call):
+                for fi, recv, off in fa.resolve_call(n):
+                    if recv is not None or fi not in pkg.fa:
+                        continue
+                    for q, a in fa.map_args(n, fi, off).items():
+                        if isinstance(a, ast.Name) and a.id == p:
+                            k = _key_kind(pkg, pkg.fa[fi], q, depth + 1)
+                            if k.startswith("str"):
+                                return "str (inferred from use)"
     return "object"
 
 
@@ -2380,7 +2477,7 @@ def _impure_reads(pkg, fa):
             if k == "builtin" and n.id in ("open", "input"):
                 out.append((n, f"calls builtin {n.id}()"))
             elif k == "global":
-                ref = pkg.follow(fa.mod.name, n.id)
+                ref = pkg.follow_name(fn, fa.mod, n.id)
                 if ref is not None and ref[0] == "ext":
                     root = ref[1].split(".")[0]
                     if root in IMPURE_MODULES or (root == "os" and ref[2] in IMPURE_OS_ATTRS):
@@ -2931,6 +3028,33 @@ SELFTEST_MUTATIONS = [
         ],
     ),
     (
+        "7 NSMAP.update(...) on the module-level table itself",
+        "E1",
+        [("pyxform/survey.py", "            nsmap = NSMAP.copy()\n", "            nsmap = NSMAP.copy()\n            NSMAP.update({\"xmlns:zz\": \"zz\"})\n")],
+    ),
+    (
+        "8 cache stored on the class (type(self).<attr> = ...) in Survey.xml",
+        "E1",
+        [
+            (
+                "pyxform/survey.py",
+                "        self.validate()\n        self._setup_xpath_dictionary()",
+                "        type(self)._xml_cache = {self.name: 1}\n        self.validate()\n        self._setup_xpath_dictionary()",
+            )
+        ],
+    ),
+    (
+        "9 join over set(...) in a message",
+        "E3",
+        [
+            (
+                "pyxform/utils.py",
+                "def has_external_choices(json_struct):\n",
+                "def has_external_choices(json_struct):\n    _msg = \", \".join(set(json_struct))\n",
+            )
+        ],
+    ),
+    (
         "6a rename a local variable",
         None,
         [("pyxform/survey.py", "root_node_name", "root_name", 99)],
@@ -2958,6 +3082,229 @@ SELFTEST_MUTATIONS = [
 ]
 
 
+
+
+# synthetic package exercising each rule; lines carrying an expected failure are marked '# E..'
+_SYNTH_CONSTS = '''TABLE = {"a": {"x": 1}}
+FLAT = {"a": "b"}
+NAMES = ["a"]
+SETC = {"p", "q"}
+'''
+
+_SYNTH_MAIN = r'''import os, sys, csv
+from functools import lru_cache, cache
+from pyxform import consts
+from pyxform.consts import TABLE, NAMES, SETC
+from . import consts as c2
+
+COUNTER = 0
+REG = []
+
+class K:
+    shared = {}
+    def __init__(self): self.own = []
+    def f1(self): self.shared["k"] = 1            # E1 classattr
+    def f2(self): type(self).zzz = 1             # E1 class
+    def f3(self): self.__class__.zzz = 1         # E1 class
+    @classmethod
+    def f4(cls): cls.registry = {}                # E1 class
+    def f5(self): self.own.append(1)             # ok
+    def f6(self): K.shared = {}                   # E1 class via name
+
+def g1():
+    global COUNTER
+    COUNTER += 1                                  # E1
+def g2(x=[]):
+    x.append(1)                                   # E1 default
+    return x
+def g3():
+    REG.append(1)                                 # E1
+def g4():
+    REG = []                                      # local shadow: ok
+    REG.append(1)
+def g5():
+    consts.NAMES.append("b")                      # E1
+    c2.TABLE["z"] = {}                            # E1
+def g6():
+    t = TABLE.get("a")
+    t["y"] = 2                                    # E1 alias
+def g7():
+    t = dict(TABLE)
+    t["q"] = 1                                    # ok
+    t["a"]["y"] = 1                               # E1 shallow
+def g8():
+    t = {**TABLE}
+    t["q"] = 1                                    # ok
+def g9():
+    setattr(consts, "X", 1)                       # E1
+    os.environ["A"] = "1"                         # E1
+def g10():
+    g10.calls = 1                                 # E1 function attr
+def g11():
+    for k, v in TABLE.items():
+        v["n"] = 1                                # E1
+def ret_state():
+    return NAMES                                  # E1x
+def g12():
+    ret_state().append(1)                         # E1
+def helper(d):
+    d["k"] = 1
+def g13():
+    helper(TABLE)                                 # E1 via summary
+def g14():
+    import copy
+    t = copy.deepcopy(TABLE); t["a"]["x"] = 2     # ok
+def counter():
+    n = 0
+    def inc():
+        nonlocal n
+        n += 1                                    # E1 closure (escapes)
+        return n
+    return inc
+def g15(xs):
+    acc = []
+    def add(x): acc.append(x)                     # ok: not escaping
+    for x in xs: add(x)
+    return acc
+
+@lru_cache(maxsize=None)
+def cached(a: str):
+    return [a, len(REG)]                          # E2a: reads mutated REG
+@cache
+def cached2(a):
+    return os.environ.get(a)                      # E2a env
+def use_cached():
+    r = cached("x")
+    r.append(1)                                   # E2b
+def use_cached_ok():
+    r = list(cached("x"))
+    r.append(1)
+
+# ---- E3
+def s1(xs: set[str]):
+    for x in xs: print(x)                         # E3
+    return sorted(xs)
+def s2(d):
+    acc = {}
+    for k in d:
+        acc[k] = acc.get(k, set()) | {1}
+    for k, vs in acc.items():
+        for v in vs: pass                         # E3
+def s3():
+    a = set(); b = frozenset([1])
+    l = list(a)                                   # E3
+    t = tuple(a | b)                              # E3
+    n = next(iter(a))                             # E3
+    p = a.pop()                                   # E3
+    x, y = b                                      # E3
+    s = f"{a}"                                    # E3
+    s2 = "%s" % a                                 # E3
+    s3 = str(a)                                   # E3
+    d = dict.fromkeys(a)                          # E3
+    for i, e in enumerate(a): pass                # E3
+    z = zip(a, [1])                               # E3
+    j = ", ".join(a)                              # E3
+    ok1 = sorted(a); ok2 = len(a); ok3 = 1 in a; ok4 = any(x for x in a); ok5 = {x for x in a}
+    ok6 = set(x for x in a); ok7 = max(a); ok8 = sorted([x for x in a])
+    bad = [x for x in a]                          # E3
+    bad2 = {x: 1 for x in a}                      # E3
+    w = csv.writer(sys.stdout); w.writerow(a)     # E3
+    return [*a]                                   # E3
+def s4():
+    for x in SETC: pass                           # E3 module-level set
+    for x in consts.SETC: pass                    # E3
+def s5(d1, d2):
+    for k in d1.keys() - d2.keys(): pass          # E3 keys view difference
+def s6():
+    for f in os.listdir("."): pass                # E3x
+    for f in sorted(os.listdir(".")): pass        # ok
+    return f"{id(s6)}"                            # E3x
+def passes_set():
+    callee_iter({1, 2})
+def callee_iter(items):
+    return [i for i in items]                     # E3 via call-site param inference
+def s7(x):
+    match x:
+        case {"a": v} if (n := len(v)) > 1:
+            return n
+        case [a, *rest]:
+            return isinstance(a, int | str)
+        case _:
+            return None
+
+# ---- E5
+def w1(warnings=None):
+    if warnings is None:
+        warnings = []
+    warnings.append("x")
+    other(warnings=warnings)
+    return warnings
+def w2(warnings):
+    if len(warnings) > 1: return 1                # E5
+    for w in warnings: pass                       # E5
+    if warnings: pass                             # E5
+    x = warnings[0]                               # E5
+    if "a" in warnings: pass                      # E5
+    warnings.clear()                              # E5
+def w3(warnings=None):
+    warnings = warnings or []
+    if not warnings:
+        warnings = []
+    return {"warnings": warnings}
+def other(warnings): warnings.extend(["a"])
+class W:
+    def __init__(self): self.warnings = []
+    def m(self):
+        self.warnings.append(1)
+        return "\n".join(self.warnings)           # E5
+def li():
+    from pyxform.consts import NAMES as N2
+    import pyxform.consts as C
+    N2.append(1)                                  # E1
+    C.TABLE["q"] = {}                             # E1
+    for x in C.SETC: pass                         # E3
+'''
+
+
+def _rules_selftest(work, out):
+    root = os.path.join(work, "synth")
+    os.makedirs(os.path.join(root, "pyxform"))
+    for name, text in (("__init__.py", ""), ("consts.py", _SYNTH_CONSTS), ("m.py", _SYNTH_MAIN)):
+        with open(os.path.join(root, "pyxform", name), "w", encoding="utf-8") as f:
+            f.write(text)
+    saved = os.environ.get("VERIF_EFFECTS_ANNOTATIONS")
+    os.environ["VERIF_EFFECTS_ANNOTATIONS"] = os.path.join(root, "no-annotations.json")
+    try:
+        res = analyse(root)
+    finally:
+        if saved is None:
+            del os.environ["VERIF_EFFECTS_ANNOTATIONS"]
+        else:
+            os.environ["VERIF_EFFECTS_ANNOTATIONS"] = saved
+    src = _SYNTH_MAIN.split("\n")
+    expected = {}
+    for i, line in enumerate(src, 1):
+        if "# E" in line:
+            tag = line.split("# ")[-1].split()[0].split(":")[0]
+            expected[i] = {"E2a": "E2", "E2b": "E2"}.get(tag, tag)
+    got = {}
+    for o in res["obligations"]:
+        if o["status"] == "failed" and o["file"].endswith("m.py"):
+            for st in o["sites"]:
+                got.setdefault(st["line"], set()).add(o["kind"])
+    missed = [ln for ln, k in expected.items() if k not in got.get(ln, set())]
+    spurious = [ln for ln in got if ln not in expected]
+    ok = not missed and not spurious
+    detail = f"{len(expected)} expected sites flagged, no unexpected site"
+    if not ok:
+        detail = "missed lines %s, unexpected lines %s" % (
+            [(ln, src[ln - 1].strip()) for ln in missed],
+            [(ln, src[ln - 1].strip()) for ln in spurious],
+        )
+    out.write(f"{'PASS' if ok else 'FAIL'}  R synthetic rule suite: {detail}\n")
+    return ok
+
+
 def selftest(repo_root=None, out=sys.stdout):
     import shutil
     import tempfile
@@ -2979,6 +3326,7 @@ def selftest(repo_root=None, out=sys.stdout):
         same = base_failed == real_failed
         out.write(f"{'PASS' if same else 'FAIL'}  0 unmutated copy gives the same failed set as {repo_root} ({len(base_failed)} failed)\n")
         ok_all &= same
+        ok_all &= _rules_selftest(work, out)
         for i, (name, kind, edits) in enumerate(SELFTEST_MUTATIONS):
             mdir = os.path.join(work, f"m{i}")
             shutil.copytree(base, mdir)
